@@ -333,10 +333,59 @@ def histories(draw, family):
             "fscale": draw(st.sampled_from([1.0, 1.0, 1.0, 1e-10, 2.0 ** -30, 1e-6, 1e8, 2.0 ** 30]))}
 
 
+# ---------------------------------------------------------------- generator + pre_eig
+def oracle_pre_eig(case, R):
+    """The generator interface is documented as not implemented with the modal pre-transformation
+    (NotImplementedError).  Validity predicate: a generator of a pre_eig solver is either refused, or what it
+    produces is what `tsolve` of the same solver gives - never accepted and answered in the wrong coordinates."""
+    from pyyeti import ode
+    rng = util.rng_of(case["seed"])
+    n, nt, h, order = case["n"], case["nt"], case["h"], case["order"]
+
+    def spd(lo, hi):
+        Q, _ = np.linalg.qr(rng.standard_normal((n, n)))
+        A = Q @ np.diag(rng.uniform(lo, hi, n)) @ Q.T
+        return (A + A.T) / 2
+
+    M = spd(0.5, 2.0)
+    K = spd(1.0, 30.0) / (h * h) * 0.05
+    Bm = 0.02 * h * K + 0.05 / h * M if case["prop"] else spd(0.01, 0.3) / h
+    F = rng.integers(-4, 5, (n, nt)).astype(float)
+    d0 = rng.integers(-2, 3, n).astype(float) if case["ic"] else None
+    v0 = rng.integers(-2, 3, n).astype(float) / h if case["ic"] else None
+    cls = {"SolveUnc": ode.SolveUnc, "SolveExp2": ode.SolveExp2, "SolveCDF": ode.SolveCDF}[case["cls"]]
+    R.label("cls=" + case["cls"], f"order={order}")
+    R.nontrivial(n >= 2)
+    ts = cls(M, Bm, K, h, order=order, pre_eig=True)
+    try:
+        gen, d, v = ts.generator(nt, F[:, 0], d0, v0)
+    except NotImplementedError:
+        R.label("pre_eig_generator:refused")
+        return
+    R.label("pre_eig_generator:accepted")
+    for i in range(1, nt):
+        gen.send((i, F[:, i]))
+    sol = ts.finalize()
+    ref = cls(M, Bm, K, h, order=order, pre_eig=True).tsolve(F, d0, v0)
+    for q in "dva":
+        a_, b_ = np.asarray(getattr(sol, q)), np.asarray(getattr(ref, q))
+        e = float(np.abs(a_ - b_).max()) / max(float(np.abs(b_).max()), 1e-300) if a_.shape == b_.shape else np.inf
+        R.check(e <= 1e-8, "pre_eig_generator_accepted_and_differs_from_tsolve", f"{q}: relerr={e:.3g} cls={case['cls']}")
+
+
+@st.composite
+def pre_eig_cases(draw):
+    return {"seed": draw(st.integers(0, 2 ** 31)), "n": draw(st.integers(2, 4)), "nt": draw(st.integers(2, 12)),
+            "h": draw(st.sampled_from([0.01, 0.1, 1.0])), "order": draw(st.sampled_from([0, 1])),
+            "prop": draw(st.booleans()), "ic": draw(st.booleans()),
+            "cls": draw(st.sampled_from(["SolveUnc", "SolveExp2", "SolveCDF"]))}
+
+
 PARTS = [
     Part("unc", oracle, strategy=lambda: histories("unc"), quick=(8, 120), thorough=(16, 800)),
     Part("eig", oracle, strategy=lambda: histories("eig"), quick=(6, 100), thorough=(16, 600)),
     Part("cdf_su", oracle, strategy=lambda: histories("cdf_su"), quick=(5, 100), thorough=(16, 600)),
     Part("cdf", oracle, strategy=lambda: histories("cdf"), quick=(5, 100), thorough=(16, 600)),
     Part("se2", oracle, strategy=lambda: histories("se2"), quick=(6, 100), thorough=(16, 600)),
+    Part("pre_eig", oracle_pre_eig, strategy=pre_eig_cases, quick=(2, 40), thorough=(8, 150)),
 ]
